@@ -19,7 +19,8 @@ def Eff (s s' : Sys) (t : Tid) : Ev → Prop
       s'.issued = s.issued ++ [p] ∧ cur s' = cur s ∧ s'.owner = s.owner ∧
       (s.thr t).todo = .queued p :: (s'.thr t).todo
   | .acq => s'.wire = s.wire ∧ s'.queue = s.queue ∧ s'.failed = s.failed ∧
-      s.owner = none ∧ s'.owner = some t ∧ (cur s').popped = [] ∧ (cur s').half = [] ∧
+      s.owner = none ∧ s'.owner = some t ∧ Clean (cur s) ∧ (cur s').popped = [] ∧
+      (cur s').half = [] ∧
       (((cur s').infl = [] ∧ s'.issued = s.issued ∧
           ((s'.thr t).todo = (s.thr t).todo ∨
             ∃ imm, (s.thr t).todo = .disconnect imm :: (s'.thr t).todo)) ∨
